@@ -1604,6 +1604,10 @@ private:
   void updateCache(const std::string &key, const std::vector<std::uint8_t> &value,
                    std::chrono::system_clock::time_point expiry) const
   {
+    if (_config.maxCacheSize == 0)
+    {
+      return; // cache disabled (and _cache.begin() below would be end())
+    }
     std::unique_lock<std::shared_mutex> lock(_cacheMutex);
     if (_cache.size() >= _config.maxCacheSize)
     {
